@@ -16,7 +16,7 @@ def len_(x):
         return VInt(slen(x.t))
     if isinstance(x, (VList, VTuple)):
         return VInt(len(x.items))
-    if type(x).__name__ == 'VTupSeq':
+    if type(x).__name__ in ('VTupSeq', 'VAbsList'):
         return x.len()
     raise Unsupported('S.len of %r' % (x,))
 
